@@ -15,7 +15,7 @@ RULE = ("postconditions on operators.dist and operators.angle (every call: workl
         "antisymmetry in the last two arguments in 2D; invariance under random isometries. Workload: lattice / float objects at any position and "
         "orientation in 2D and 3D, all kind combinations, single and collection. Non-trivial = operands not axis aligned unit "
         "configurations (>= 2 coordinates not in {0,1,-1}); distinct by operand digest."
-        " Also: polygons and cuboids moved by translations / rotations after construction, lines in special position (through the origin, axis parallel, inside a coordinate plane) against parallel planes.")
+        " Also: polygons and cuboids moved by translations / rotations after construction, lines in special position (through the origin, axis parallel, inside a coordinate plane) against parallel planes; three distinct collinear points of the plane (angle 0 modulo pi; a raise is a violation).")
 SHARDS = (8, 16)
 REQUIRED = ["dist", "angle", "dist.symmetric", "isometry"]
 ASSUMPTIONS = ["complex operands, both points at infinity and non-parallel plane/line pairs are not judged", "3D rotation handedness and the orientation of 3D angles are not judged",
